@@ -75,10 +75,19 @@ func specials() []special {
 				}
 				return "", ""
 			}},
-		{Name: "map-for-struct-param-nil-member", Src: `h.` + mapStructParam("MyStruct") + `({"A": 1, "D": nil, "C": nil})`, MayErr: true,
+		{Name: "map-for-struct-param-nil-slice-member", Src: `h.` + mapStructParam("MyStruct") + `({"C": nil})`, MayErr: true,
 			After: func(h *Host, g map[string]any) (string, string) {
 				if len(h.got) == 1 {
-					if v, ok := h.got[0].(MyStruct); !ok || v.A != 1 || v.D != nil || v.C != nil {
+					if v, ok := h.got[0].(MyStruct); !ok || v.C != nil {
+						return "goside-wrong-value", fmt.Sprintf("received %#v", h.got[0])
+					}
+				}
+				return "", ""
+			}},
+		{Name: "map-for-struct-param-nil-pointer-member", Src: `h.` + mapStructParam("MyStruct") + `({"D": nil})`, MayErr: true,
+			After: func(h *Host, g map[string]any) (string, string) {
+				if len(h.got) == 1 {
+					if v, ok := h.got[0].(MyStruct); !ok || v.D != nil {
 						return "goside-wrong-value", fmt.Sprintf("received %#v", h.got[0])
 					}
 				}
@@ -110,6 +119,8 @@ func specials() []special {
 			}},
 		{Name: "host-with-inconvertible-method-other-method", Src: `b.Fine(1)`, Want: `2`, MayErr: true, Setup: func(g map[string]any) { g["b"] = &BadHost{} }},
 		{Name: "host-with-inconvertible-method-call", Src: `b.Chan(1)`, MustEr: true, Setup: func(g map[string]any) { g["b"] = &BadHost{} }},
+		{Name: "string-for-non-empty-interface-param", Src: `h.` + fmt.Sprintf("Take%03d", hostIndex[stringerType]) + `("x")`, MustEr: true, Calls: "-"},
+		{Name: "string-for-non-empty-interface-member", Src: "v.S = \"x\"", MustEr: true, Setup: func(g map[string]any) { g["v"] = &struct{ S Stringer }{} }},
 		{Name: "unknown-member", Src: `h.Nope`, MustEr: true},
 		{Name: "unknown-member-write", Src: `h.Nope = 1`, MustEr: true},
 		{Name: "method-overwrite", Src: `h.NoArgs = 1`, MustEr: true},
